@@ -39,8 +39,8 @@ func (fr *Frame) mapKey(st *State, mt *types.Map, k Val) Term {
 	case *types.Basic:
 		if isString(kt) {
 			srt := fr.mapKeySort(mt)
-			f := fr.ctx.Func("strkey", []string{ArrSort(SBV64, SBV8), SBV64, SBV64}, srt)
-			h := fr.heap(st, elemHeap(types.Typ[types.Uint8], ""), ArrSort(SInt, ArrSort(SBV64, SBV8)))
+			f := fr.ctx.Func("strkey", []string{ArrSort(SInt, SBV8), SInt, SInt}, srt)
+			h := fr.heap(st, elemHeap(types.Typ[types.Uint8], ""), byteHeapSort)
 			return app(srt, f, Select(h, k.Obj()), k.Off(), k.Len())
 		}
 		return k.Term()
@@ -48,7 +48,7 @@ func (fr *Frame) mapKey(st *State, mt *types.Map, k Val) Term {
 		n := int(u.Len())
 		var bs []Term
 		for i := 0; i < n; i++ {
-			bs = append(bs, Select(k.C[0], BV(int64(i), 64)))
+			bs = append(bs, Select(k.C[0], IntT(int64(i))))
 		}
 		if n == 1 {
 			return bs[0]
@@ -132,8 +132,8 @@ func (fr *Frame) execLookup(st *State, x *ssa.Lookup) {
 		s := fr.val(st, x.X)
 		idx := fr.idx64(fr.val(st, x.Index), x.Index.Type())
 		fr.boundsCheck(st, "index", fr.describe(x), idx, s.Len(), x.Pos())
-		h := fr.heap(st, elemHeap(types.Typ[types.Uint8], ""), ArrSort(SInt, ArrSort(SBV64, SBV8)))
-		fr.setReg(x, scalar(x.Type(), Select(Select(h, s.Obj()), BVOp("bvadd", s.Off(), idx))))
+		h := fr.heap(st, elemHeap(types.Typ[types.Uint8], ""), byteHeapSort)
+		fr.setReg(x, scalar(x.Type(), Select(Select(h, s.Obj()), IAdd(s.Off(), idx))))
 	default:
 		panic(unsupported("lookup on " + x.X.Type().String()))
 	}
@@ -166,13 +166,13 @@ func (fr *Frame) execRecv(st *State, x *ssa.UnOp) {
 func (fr *Frame) execSelect(st *State, x *ssa.Select) {
 	// result tuple: (index int, recvOk bool, r_0 T_0, ...)
 	fr.top.note("select abstracted as nondeterministic choice in " + fr.fn.Name())
-	idx := fr.ctx.Fresh("selidx", SBV64)
+	idx := fr.ctx.Fresh("selidx", SInt)
 	n := int64(len(x.States))
 	lo := int64(0)
 	if !x.Blocking {
 		lo = -1
 	}
-	fr.assume(st, And(BVCmp("bvsle", BV(lo, 64), idx), BVCmp("bvslt", idx, BV(n, 64))))
+	fr.assume(st, InRange(idx, IntT(lo), IntT(n)))
 	elems := []Val{scalar(types.Typ[types.Int], idx), scalar(types.Typ[types.Bool], fr.ctx.Fresh("selok", SBool))}
 	for _, s := range x.States {
 		if s.Dir == types.RecvOnly {
